@@ -121,6 +121,7 @@ class MaskedLinearOperator(LinearOperator):
         # Otherwise, will only convert device.
 
         device, dtype = _to_helper(*args, **kwargs)
+        dtype = self.dtype if dtype is None else dtype
 
         new_args = []
         new_kwargs = {}
